@@ -559,7 +559,7 @@ func init() {
 		rec.Required = []string{"healthy_op_memory_equals_store", "failed_write_left_memory_unchanged", "recovered_store_agrees", "concurrent_histories", "histories_linearizable_per_machine", "fault_windows"}
 		rec.Assume = []string{"store faults are injected by closing the bolt database (every write and read fails until it is reopened); commits do not fsync (NoSync) because durability is not monitored", "machines are counters with a unique incarnation tag, so every state of every incarnation is distinguishable", "porcupine timeout 60 s = inconclusive"}
 		// sequential fault enumeration
-		nseq := cfg.Pick(40, 400)
+		nseq := cfg.Pick(40, 800)
 		type job struct {
 			idx    int
 			seq    []c16op
@@ -603,7 +603,7 @@ func init() {
 		}
 		interleavings := map[string]bool{}
 		var imu sync.Mutex
-		fw.Parallel(4, cfg.Pick(150, 2000), func(w, i int) { c16Concurrent(cfg, rec, i, interleavings, &imu) })
+		fw.Parallel(4, cfg.Pick(150, 4000), func(w, i int) { c16Concurrent(cfg, rec, i, interleavings, &imu) })
 		VerifPoint = nil
 		rec.SetExtra("distinct_return_orders_seen", len(interleavings))
 	}
